@@ -1,0 +1,7 @@
+//go:build !verif
+
+package store
+
+// verifPoint marks a control point for the verification harnesses; it does nothing in
+// ordinary builds (see verif_hooks_on.go).
+func verifPoint(point string) {}
